@@ -7,8 +7,8 @@ from amc.core import Failure, Report, exc_sig
 from amc.ref import bv
 
 P, Q = 0x1000, 0x2000
-LOCS = ["r1", "r2", "f", "Mp", "Mp4", "Mq", "M8p1", "Mq4", "Mv4"]
-VALS = ["cst", "reg", "inc", "tst", "mem", "top"]
+LOCS = ["r1", "r2", "f", "Mp", "Mp4", "Mq", "M8p1", "Mq4", "Mv4", "p"]
+VALS = ["cst", "reg", "inc", "tst", "mem", "top", "vecw"]
 RED_LOCS = ["r1", "Mp", "Mq", "M8p1", "Mv4"]
 RED_VALS = ["cst", "reg", "inc"]
 CONDS = [None, "r1==0", "r2!=0"]
@@ -37,7 +37,8 @@ def mkregs():
 
 def mkloc(R, name):
     from amoco.cas import expressions as E
-    if name in ("r1", "r2", "f"):
+    if name in ("r1", "r2", "f", "p"):
+        # ("p": a map that redefines the base register of the other map's memory locations)
         return R[name], 32
     if name == "Mp":
         return E.mem(R["p"], 32), 32
@@ -78,6 +79,9 @@ def mkval(R, name, size, k):
         return x[0:size] if size < 32 else x
     if name == "top":
         return E.top(size)
+    if name == "vecw":
+        # a widened value (unknown, carrying hints) as left by an earlier merge(..., widening=True)
+        return E.vecw(E.vec([E.cst(1, size), E.cst(2, size)]))
     raise ValueError(name)
 
 
@@ -247,7 +251,12 @@ def check_pair(args):
                             break  # unknown: accepted
                         ev = walk_alts(v, env)
                         if ev is None:
-                            break  # the original itself is unknown (top)
+                            # the input's own value is unknown (top / widened): only 'unknown' covers it
+                            if alts is not None and not (v._is_top or not v._is_def) or (alts is not None and type(v).__name__ == "vecw"):
+                                out.append((("definite-from-unknown", feature(s1, s2), lockind(l), "w" if widening else "-", "cx" if cx else "-"),
+                                            "merge(%s | %s)[%s] = %s is a definite set of alternatives although %s's value %s is unknown" % (
+                                                b1.replace("\n", "; "), b2.replace("\n", "; "), loc, vm, side, v)))
+                            break
                     except bv.Unknown:
                         continue
                     except Exception as ex:
@@ -320,14 +329,14 @@ def feature(s1, s2):
     if "Mv4" in l1 or "Mv4" in l2:
         f.append("vecptr")
     vals = set(v for _, v in s1["w"]) | set(v for _, v in s2["w"])
-    for v in ("tst", "mem", "top"):
+    for v in ("tst", "mem", "top", "vecw"):
         if v in vals:
             f.append(v)
     return "+".join(f) or "plain"
 
 
 def lockind(l):
-    return "reg" if l in ("r1", "r2", "f") else "mem"
+    return "reg" if l in ("r1", "r2", "f", "p") else "mem"
 
 
 def shape(s1, s2):
